@@ -241,3 +241,15 @@ Definition anno_seek_range (s : sigstate) (t : Z) : nat * nat :=
 
 Definition utc_from (s : sigstate) (sid : Z) : list (Z * Z) :=
   filter (fun p => (fst p >=? sid)%Z) (ss_utcs s).
+
+(* ---- exact window statistics (C02): samples as integers; the oracle compares the implementation's
+        {mean, std, min, max} with these exact sums under the tolerance the property states ---- *)
+Definition z_min_list (l : list Z) : Z := match l with [] => 0%Z | x :: r => fold_left Z.min r x end.
+Definition z_max_list (l : list Z) : Z := match l with [] => 0%Z | x :: r => fold_left Z.max r x end.
+Definition win_stats (l : list Z) : Z * Z * Z * Z :=
+  (fold_left Z.add l 0%Z, fold_left (fun a x => (a + x * x)%Z) l 0%Z, z_min_list l, z_max_list l).
+(* consecutive windows of [incr] samples starting at [start] *)
+Fixpoint windows {A} (count : nat) (incr : nat) (l : list A) : list (list A) :=
+  match count with O => [] | S c => firstn incr l :: windows c incr (skipn incr l) end.
+Definition stats_windows (vals : list Z) (start incr count : nat) : list (Z * Z * Z * Z) :=
+  map win_stats (windows count incr (skipn start vals)).
